@@ -23,6 +23,25 @@ def module_env(repo, rel) -> Dict[str, V]:
             env[k] = V("bool", val=v)
         elif isinstance(v, (int, float)):
             env[k] = num(v)
+        elif isinstance(v, dict) and v and all(isinstance(x, (int, float)) and not isinstance(x, bool) for x in v.values()):
+            env[k] = V("mapping", extra=(V("str"), V("q", dim={}, unit={}, val=None)))
+        elif isinstance(v, (tuple, list)) and v and all(isinstance(x, (int, float)) and not isinstance(x, bool) for x in v):
+            env[k] = V("tuple", items=[num(x) for x in v])
+    for node in m.tree.body:  # numeric arrays: np.array(<literal numbers>)
+        if isinstance(node, ast.Assign) and isinstance(node.targets[0], ast.Name) and isinstance(node.value, ast.Call) \
+                and isinstance(node.value.func, ast.Attribute) and node.value.func.attr in ("array", "asarray") and node.value.args:
+            try:
+                from .astu import fold, NotLiteral
+                lit = fold(node.value.args[0], {})
+            except Exception:
+                continue
+
+            def _allnum(x):
+                if isinstance(x, (list, tuple)):
+                    return all(_allnum(y) for y in x)
+                return isinstance(x, (int, float)) and not isinstance(x, bool)
+            if _allnum(lit):
+                env[node.targets[0].id] = V("q", dim={}, unit={}, val=None)
     for name, (modname, attr) in m.imports.items():
         if name in env:
             continue
